@@ -39,6 +39,16 @@ func (eng *Engine) isPureExternal(name string) bool {
 	return false
 }
 
+// deterministic pure externals: the same arguments give the same result (unlike time.Now, random sources)
+func (eng *Engine) isDeterministicExternal(name string) bool {
+	for _, p := range []string{"(time.Time).", "(time.Duration).", "time.Unix", "strings.", "math.", "unicode.", "unicode/utf8.", "math/bits.", "hash/crc32.", "github.com/zeebo/xxh3.", "path/filepath."} {
+		if strings.HasPrefix(name, p) {
+			return true
+		}
+	}
+	return false
+}
+
 func (eng *Engine) isNoop(name string) bool {
 	switch name {
 	case "(*sync.Mutex).Lock", "(*sync.Mutex).Unlock", "(*sync.RWMutex).Lock", "(*sync.RWMutex).Unlock", "(*sync.RWMutex).RLock", "(*sync.RWMutex).RUnlock",
